@@ -29,6 +29,7 @@
 EXTENDS PtSem
 
 CONSTANTS MaxLen, MaxDim      \* axis lengths 0..MaxLen, up to MaxDim axes
+CONSTANTS KindsB, Rich        \* second family: instance kinds to enumerate; rich index data
 
 Lens == 0..MaxLen
 Shapes == UNION {[1..d -> Lens] : d \in 0..MaxDim}
@@ -265,30 +266,33 @@ NumOf(acc, t) ==
                    : a \in DOMAIN acc}
   IN IF ds = {} THEN 0 ELSE 1 + (CHOOSE m \in ds : \A z \in ds : z <= m)
 
-IdxArrShapes == {<<>>, <<1>>, <<2>>, <<2, 1>>, <<1, 2>>}
-AdvItems(n) == Ints(n) \cup {[t |-> "nslice", start |-> 0, stop |-> n, step |-> 1],
+IdxArrShapes == IF Rich THEN {<<>>, <<1>>, <<2>>, <<2, 1>>, <<1, 2>>} ELSE {<<1>>, <<2>>}
+IdxVals(n) == IF Rich THEN (-n)..(n - 1) ELSE {-1, 0}
+AdvItems(n) == (IF Rich THEN Ints(n) ELSE {[t |-> "int", v |-> v] : v \in {-1, 0}})
+                       \cup {[t |-> "nslice", start |-> 0, stop |-> n, step |-> 1],
                              [t |-> "nslice", start |-> n - 1, stop |-> -1, step |-> -1]}
                        \cup {[t |-> "arr", n |-> q] : q \in {2, 3}}
 
 Init2 ==
   \/ \E s1 \in Shapes, s2 \in Shapes, op \in {"add", "sub", "mul", "lt"} :
-        Broadcastable2(s1, s2) /\ inst = [kind |-> "binop", op |-> op, s1 |-> s1, s2 |-> s2]
+        "binop" \in KindsB /\ Broadcastable2(s1, s2) /\ inst = [kind |-> "binop", op |-> op, s1 |-> s1, s2 |-> s2]
   \/ \E sc \in Shapes, s1 \in Shapes, s2 \in Shapes :
-        /\ Len(sc) <= 2 /\ Len(s1) <= 2 /\ Len(s2) <= 2
+        /\ "where" \in KindsB /\ Len(sc) <= 2 /\ Len(s1) <= 2 /\ Len(s2) <= 2
         /\ BroadcastableAll(<<sc, s1, s2>>)
         /\ inst = [kind |-> "where", sc |-> sc, s1 |-> s1, s2 |-> s2]
   \/ \E s \in Shapes, op \in {"sum", "product", "max"} :
-        /\ Len(s) >= 1 /\ (op = "max" => \A j \in DOMAIN s : s[j] >= 1)
+        /\ "reduce" \in KindsB /\ Len(s) >= 1 /\ (op = "max" => \A j \in DOMAIN s : s[j] >= 1)
         /\ \E rax \in NonEmptyAscSeqs(Len(s)) :
               inst = [kind |-> "reduce", op |-> op, shape |-> s, rax |-> rax]
   \/ \E acc \in EinTemplates :
         \E shapes \in [DOMAIN acc -> Shapes] :
-          /\ \A a \in DOMAIN acc : Len(shapes[a]) = Len(acc[a])
+          /\ "einsum" \in KindsB /\ \A a \in DOMAIN acc : Len(shapes[a]) = Len(acc[a])
           /\ \A t \in {"e", "r"}, d \in 0..1 :
                 Cardinality(OccLens(acc, shapes, t, d) \ {1}) <= 1
           /\ inst = [kind |-> "einsum", acc |-> acc, shapes |-> shapes]
   \/ \E s \in Shapes :
-        /\ Len(s) \in 2..3 /\ \A j \in DOMAIN s : s[j] >= 1
+        /\ "adv" \in KindsB /\ Len(s) \in 2..3 /\ \A j \in DOMAIN s : s[j] >= 1
+        /\ (~Rich => Len(s) = 3)
         /\ \E items \in [1..Len(s) -> UNION {AdvItems(s[j]) : j \in DOMAIN s}] :
              /\ \A j \in DOMAIN s : items[j] \in AdvItems(s[j])
              /\ \E j \in DOMAIN s : items[j].t = "arr" /\ items[j].n = 2
@@ -302,9 +306,9 @@ Init2 ==
                                        items[z].t = "arr" /\ items[z].n = q}} : n <= m
                      IN /\ BroadcastableAll([q \in 1..Cardinality(used) |->
                                                ish[SeqOfSet(used)[q]]])
-                        /\ \E v2 \in [1..SizeOf(sh2) -> -(lim(2))..(lim(2) - 1)] :
+                        /\ \E v2 \in [1..SizeOf(sh2) -> IdxVals(lim(2))] :
                            \E v3 \in IF 3 \in used
-                                       THEN [1..SizeOf(sh3) -> -(lim(3))..(lim(3) - 1)]
+                                       THEN [1..SizeOf(sh3) -> IdxVals(lim(3))]
                                        ELSE {<<>>} :
                              inst = [kind |-> "adv", shape |-> s, items |-> items,
                                      ishapes |-> ish, v2 |-> v2, v3 |-> v3,
